@@ -6,7 +6,7 @@ from collections import Counter
 import framework as F
 
 ID = "C05"
-GEN = []
+GEN = ["Conv"]
 LEVEL = "proof"
 TECHNIQUE = ("Coq proof over the reals about a nested-list model of LinearDense / LinearDirect / LinearLateral / Conv2D "
              "(F.linear, matmul, F.unfold, F.fold and the einops patterns modelled by their index maps), against independent "
